@@ -1,7 +1,34 @@
 //! C20 probe: built once per feature subset (default features off); prints a digest of a fixed battery of core
 //! computations and of every helper of each enabled trait.  With the alias feature `all` every battery is enabled via
 //! `geonum/all` (this crate's own per-feature cfgs are then off, so `all` is expanded by hand below).
+//!
+//! `probe20 run` instead reads protocol lines (the same ones the correspondence check uses) from stdin and prints each
+//! result, with `bad-op` for an operation whose trait is not compiled into this configuration; the C20 check compares
+//! those streams across all configurations, so a behavioural difference between feature subsets is reported with the
+//! concrete input line that shows it.
+mod ops_gen;
+mod val;
 use geonum::{Angle, GeoCollection, Geonum};
+use std::io::{BufRead, Write};
+
+fn run_line(line: &str) -> String {
+    let mut it = line.split_whitespace();
+    let name = match it.next() { Some(n) => n, None => return "bad-op".into() };
+    let sig = match ops_gen::OPS.iter().find(|o| o.0 == name) { Some(o) => o.1, None => return "bad-op".into() };
+    let toks: Vec<&str> = it.collect();
+    if toks.len() != sig.len() { return "bad-op".into(); }
+    let mut args = Vec::new();
+    for (k, t) in sig.chars().zip(toks.iter()) {
+        match val::parse_arg(k, t) { Some(v) => args.push(v), None => return "bad-op".into() }
+    }
+    let name = name.to_string();
+    match std::panic::catch_unwind(move || ops_gen::run_op(&name, &args)) {
+        Ok(Some(s)) => s,
+        Ok(None) => "bad-op".into(),
+        Err(_) => "panic".into(),
+    }
+}
+
 
 struct H(u64);
 impl H {
@@ -103,6 +130,12 @@ fn affine_battery() -> u64 {
 }
 
 fn main() {
+    if std::env::args().nth(1).as_deref() == Some("run") {
+        std::panic::set_hook(Box::new(|_| {}));
+        let out = std::io::stdout(); let mut out = std::io::BufWriter::new(out.lock());
+        for line in std::io::stdin().lock().lines() { writeln!(out, "{}", run_line(&line.unwrap())).unwrap(); }
+        return;
+    }
     println!("core {:016x}", core_battery());
     #[cfg(any(feature = "optics", feature = "all"))] println!("optics {:016x}", optics_battery());
     #[cfg(any(feature = "projection", feature = "all"))] println!("projection {:016x}", projection_battery());
